@@ -107,6 +107,44 @@ impl Scenario for C09 {
             let p = Plan { kind: "permutations".into(), seqs: vec![s], deliveries: Vec::new(), timeout_ms: 30_000, salt: r.next_u64() };
             return serde_json::to_value(p).unwrap();
         }
+        if r.chance(1, 8) {
+            // the same sequence id carrying 2..4 messages one after the other (an id is free again once its
+            // message is complete); each message arrives in a seeded order, duplicates only while incomplete
+            let first = gen_seq(r, &mut used);
+            let k = r.range(2, 4) as usize;
+            let mut seqs = vec![first.clone()];
+            for _ in 1..k {
+                let mut s = gen_seq(r, &mut BTreeSet::new());
+                s.id = first.id;
+                seqs.push(s);
+            }
+            let timeout_ms = *r.pick(&[30_000u64, 1_000]);
+            let mut deliveries = Vec::new();
+            for (si, s) in seqs.iter().enumerate() {
+                let mut order: Vec<u64> = (1..=u64::from(s.n)).collect();
+                for i in (1..order.len()).rev() {
+                    let j = r.below(i as u64 + 1) as usize;
+                    order.swap(i, j);
+                }
+                let mut group: Vec<u64> = Vec::new();
+                for (pos, f) in order.iter().enumerate() {
+                    group.push(*f);
+                    if pos + 1 < order.len() && r.chance(1, 6) {
+                        group.push(*f); // duplicate while the message is still incomplete
+                    }
+                }
+                for (gi, f) in group.iter().enumerate() {
+                    deliveries.push(Delivery {
+                        seq: si as u32,
+                        frag: *f,
+                        wait_ms: if r.chance(1, 5) { timeout_ms / 3 } else { 0 },
+                        cleanup: gi == 0 && r.chance(1, 3),
+                    });
+                }
+            }
+            let p = Plan { kind: "reuse".into(), seqs, deliveries, timeout_ms, salt: r.next_u64() };
+            return serde_json::to_value(p).unwrap();
+        }
         let n_seqs = r.range(1, 4) as usize;
         let seqs: Vec<SeqSpec> = (0..n_seqs).map(|_| gen_seq(r, &mut used)).collect();
         let timeout_ms = *r.pick(&[30_000u64, 1_000, 50]);
@@ -153,7 +191,11 @@ impl Scenario for C09 {
         if p.seqs.is_empty() || p.seqs.len() > 6 || p.seqs.iter().any(|s| s.n == 0 || s.n > 8) {
             return RunOutput::default();
         }
-        {
+        if p.kind == "reuse" {
+            if !reuse_plan_ok(&p) {
+                return RunOutput::default();
+            }
+        } else {
             let mut ids = BTreeSet::new();
             if !p.seqs.iter().all(|s| ids.insert(s.id)) {
                 return RunOutput::default();
@@ -164,6 +206,8 @@ impl Scenario for C09 {
         let ex = execute(&world, 48 * 3_600_000, |w| async move {
             if p.kind == "permutations" {
                 permutations(&w, &p).await;
+            } else if p.kind == "reuse" {
+                reuse(&w, &p).await;
             } else {
                 channel(&w, &p).await;
             }
@@ -173,18 +217,120 @@ impl Scenario for C09 {
 
     fn info(&self) -> Info {
         Info {
-            rule: "one run = 1..4 sequences (arbitrary 64-bit ids; message of 0..300 bytes cut at seeded positions into 1..8 fragments numbered N..1 as the protocol prescribes, header = fragment N) put on an unordered channel: seeded delivery permutation, duplicates, drops, out-of-range ids (0, N+1, 2^63, 2^64-1), simulated time passing between deliveries up to beyond the expiry timeout, cleanup_expired calls; or (kind permutations) every one of the N! arrival orders of one sequence, N <= 5 (6 thorough), counted in counters.c09.orders_enumerated. Reference model = per sequence the set of ids seen + whether the header was seen + last update time. Non-trivial = more than one fragment; distinct = distinct event log.",
+            rule: "one run = 1..4 sequences (arbitrary 64-bit ids; message of 0..300 bytes cut at seeded positions into 1..8 fragments numbered N..1 as the protocol prescribes, header = fragment N) put on an unordered channel: seeded delivery permutation, duplicates, drops, out-of-range ids (0, N+1, 2^63, 2^64-1), simulated time passing between deliveries up to beyond the expiry timeout, cleanup_expired calls; or (kind reuse) 2..4 messages one after the other on the same sequence id, each in a seeded arrival order with duplicates while incomplete; or (kind permutations) every one of the N! arrival orders of one sequence, N <= 5 (6 thorough), counted in counters.c09.orders_enumerated. Reference model = per sequence the set of ids seen + whether the header was seen + last update time. Non-trivial = more than one fragment; distinct = distinct event log.",
             components_real: &["edp_client::fragmentation::FragmentAssembler (start_fragment, add_fragment, cleanup_expired, pending_count)", "tokio paused clock behind Instant (hook H5)"],
             components_stubbed: &["the unordered, duplicating, dropping channel (simulator)", "decode_fragment_header/cont and Connection::receive_message are not in this loop (see C06)"],
             assumptions: &["a result equal to the ascending-fragment-id concatenation but different from the original message is classified separately (order-ascending-id) from any other wrong result"],
             fault_prefixes: &["fault."],
-            expected_probes: &["probe.c09.completed", "probe.c09.completed_header_last", "probe.c09.completed_header_first", "probe.c09.duplicate_ignored", "probe.c09.out_of_range_ignored", "probe.c09.expired_removed", "probe.c09.incomplete_stays_pending", "probe.c09.interleaved_sequences"],
+            expected_probes: &["probe.c09.completed", "probe.c09.completed_header_last", "probe.c09.completed_header_first", "probe.c09.duplicate_ignored", "probe.c09.out_of_range_ignored", "probe.c09.expired_removed", "probe.c09.incomplete_stays_pending", "probe.c09.interleaved_sequences", "probe.c09.reused_id_completed", "probe.c09.reused_id_continuation_first", "probe.c09.late_duplicate_after_completion"],
+        }
+    }
+}
+
+/// A plan of kind "reuse" as the generator makes them: one id, deliveries grouped message by message, every
+/// fragment of a message delivered, the delivery that completes a message being the last one of its group.
+fn reuse_plan_ok(p: &Plan) -> bool {
+    if p.seqs.len() < 2 || p.seqs.iter().any(|s| s.id != p.seqs[0].id) || p.timeout_ms < 30 {
+        return false;
+    }
+    let mut cur = 0u32;
+    let mut seen: BTreeSet<u64> = BTreeSet::new();
+    let mut last_new = false;
+    for d in &p.deliveries {
+        if d.wait_ms * 3 > p.timeout_ms {
+            return false;
+        }
+        if d.seq != cur {
+            let n = u64::from(p.seqs[cur as usize].n);
+            if d.seq != cur + 1 || d.seq as usize >= p.seqs.len() || seen.len() as u64 != n || !last_new {
+                return false;
+            }
+            cur = d.seq;
+            seen.clear();
+        }
+        let n = u64::from(p.seqs[cur as usize].n);
+        if d.frag < 1 || d.frag > n {
+            return false;
+        }
+        last_new = seen.insert(d.frag);
+        if seen.len() as u64 == n && !last_new {
+            return false; // a duplicate after completion
+        }
+    }
+    let n = u64::from(p.seqs[cur as usize].n);
+    cur as usize + 1 == p.seqs.len() && seen.len() as u64 == n && last_new
+}
+
+async fn reuse(w: &Arc<World>, p: &Plan) {
+    let mut asm = FragmentAssembler::with_timeout(Duration::from_millis(p.timeout_ms));
+    let mut seen: BTreeSet<u64> = BTreeSet::new();
+    let mut cur = 0u32;
+    for (k, d) in p.deliveries.iter().enumerate() {
+        if d.seq != cur {
+            cur = d.seq;
+            seen.clear();
+        }
+        let s = &p.seqs[d.seq as usize];
+        if d.wait_ms > 0 {
+            tokio::time::sleep(Duration::from_millis(d.wait_ms)).await;
+        }
+        if d.cleanup {
+            // nothing here has been idle for longer than a third of the timeout
+            let removed = asm.cleanup_expired();
+            if removed > 0 {
+                w.violation("expiry", format!("delivery {}: cleanup_expired() removed {} sequences, none had been idle longer than the timeout", k, removed));
+                return;
+            }
+        }
+        let (prefix, _data, frags) = pieces(s);
+        let n = frags.len() as u64;
+        let is_header = d.frag == n;
+        let payload = frags[(n - d.frag) as usize].clone();
+        let res = if is_header {
+            asm.start_fragment(s.id, d.frag, if prefix.is_empty() { None } else { Some(prefix.clone()) }, payload)
+        } else {
+            asm.add_fragment(s.id, d.frag, payload)
+        };
+        seen.insert(d.frag);
+        let complete = seen.len() as u64 == n;
+        w.ev(format!("reuse deliver {} message#{} frag {} -> {}", k, d.seq, d.frag, res.as_ref().map(|b| b.len() as i64).unwrap_or(-1)));
+        match (complete, &res) {
+            (true, Some(bytes)) => {
+                classify(w, s, bytes, &format!("message {} on the reused sequence id completed at delivery {}", d.seq, k));
+                if d.seq > 0 {
+                    w.stat("probe.c09.reused_id_completed");
+                    if !is_header {
+                        w.stat("probe.c09.reused_id_continuation_first");
+                    }
+                }
+                if asm.pending_count() != 0 {
+                    w.violation("pending-count", format!("after message {} on the reused id completed, pending_count() is {}", d.seq, asm.pending_count()));
+                    return;
+                }
+            }
+            (true, None) => {
+                w.violation("not-completed", format!("delivery {} supplied the last missing fragment of message {} on a sequence id used before ({} fragments) but nothing was returned", k, d.seq, n));
+                return;
+            }
+            (false, Some(bytes)) => {
+                w.violation("premature-or-repeated", format!("delivery {} (fragment {} of message {} on a reused id) returned {} bytes although the message is not complete", k, d.frag, d.seq, bytes.len()));
+                return;
+            }
+            (false, None) => {
+                if asm.pending_count() != 1 {
+                    w.violation("pending-count", format!("after delivery {}: pending_count() is {} with one incomplete sequence", k, asm.pending_count()));
+                    return;
+                }
+            }
         }
     }
 }
 
 #[derive(Default, Clone)]
 struct ModelRec {
+    /// created by a fragment that arrived after its sequence had already completed (a late duplicate,
+    /// which an assembler may keep as the beginning of a new message or drop)
+    orphan: bool,
     header: bool,
     ids: BTreeSet<u64>,
     last_update_ms: u64,
@@ -213,6 +359,7 @@ async fn channel(w: &Arc<World>, p: &Plan) {
     let mut asm = FragmentAssembler::with_timeout(Duration::from_millis(p.timeout_ms));
     let mut model: BTreeMap<u32, ModelRec> = BTreeMap::new();
     let mut seen_seqs = BTreeSet::new();
+    let mut completed_once: BTreeSet<u32> = BTreeSet::new();
     for (k, d) in p.deliveries.iter().enumerate() {
         let Some(s) = p.seqs.get(d.seq as usize) else { continue };
         if d.wait_ms > 0 {
@@ -238,8 +385,9 @@ async fn channel(w: &Arc<World>, p: &Plan) {
             if removed > 0 {
                 w.stat("probe.c09.expired_removed");
             }
-            if asm.pending_count() != model.len() {
-                w.violation("pending-count", format!("after cleanup: pending_count() is {} with {} incomplete unexpired sequences", asm.pending_count(), model.len()));
+            let genuine = model.values().filter(|r| !r.orphan).count();
+            if asm.pending_count() > model.len() || asm.pending_count() < genuine {
+                w.violation("pending-count", format!("after cleanup: pending_count() is {} with {} incomplete unexpired sequences ({} of them begun by a late duplicate)", asm.pending_count(), model.len(), model.len() - genuine));
                 return;
             }
         }
@@ -261,7 +409,13 @@ async fn channel(w: &Arc<World>, p: &Plan) {
                 return;
             }
         }
+        let fresh = !model.contains_key(&d.seq);
         let rec = model.entry(d.seq).or_default();
+        if fresh && completed_once.contains(&d.seq) {
+            rec.orphan = true;
+            w.stat("probe.c09.late_duplicate_after_completion");
+        }
+        let orphan = rec.orphan;
         rec.last_update_ms = now;
         if is_header {
             rec.header = true;
@@ -289,6 +443,13 @@ async fn channel(w: &Arc<World>, p: &Plan) {
                     w.stat("probe.c09.completed_header_first");
                 }
                 model.remove(&d.seq);
+                completed_once.insert(d.seq);
+            }
+            (true, None) if orphan => {
+                // late duplicates of a finished message that add up to the whole message again: returning it a
+                // second time (a new message on the same id) or ignoring them (duplicates) both fit the statement
+                w.stat("c09.late_duplicates_complete_again_ignored");
+                return;
             }
             (true, None) => {
                 w.violation("not-completed", format!("delivery {} supplied the last missing fragment of sequence {} ({} fragments) but nothing was returned", k, d.seq, n));
@@ -300,7 +461,7 @@ async fn channel(w: &Arc<World>, p: &Plan) {
             }
             (false, None) => {}
         }
-        let unexpired = model.values().filter(|r| now - r.last_update_ms <= p.timeout_ms).count();
+        let unexpired = model.values().filter(|r| !r.orphan && now - r.last_update_ms <= p.timeout_ms).count();
         let pc = asm.pending_count();
         if pc > model.len() || pc < unexpired {
             w.violation("pending-count", format!("after delivery {}: pending_count() is {} with {} incomplete sequences of which {} unexpired", k, pc, model.len(), unexpired));
